@@ -2,6 +2,7 @@
 From Coq Require Import List NArith ZArith Bool String.
 From SudachiVerif Require Import Model.Codec Model.CodecConn Model.CodecResolve Model.CodecCsv.
 From SudachiVerif Require Generated.FieldOrder.
+From SudachiVerif Require Model.Trie Model.LexSet Model.IndexBuild.
 Import ListNotations.
 Open Scope N_scope.
 
@@ -137,14 +138,28 @@ Definition parse_stack (user : bool) (sys_rows rows : list (list text)) : res (l
   do r <- parse_records (fst sys) rows;
   ROk (fst sys, skipn (List.length (fst sys)) (fst r), snd sys, snd r).
 
+(* the index: builder C's model of IndexBuilder / write_index (Model/IndexBuild.v) run on the parsed rows -- key = UTF-8
+   bytes of the index form, indexed iff left_id >= 0, ids = record numbers -- reproduces the word-id table section byte
+   for byte and exactly the (key, offset) pairs the verified enumerator reads out of the trie section (index_cert, the
+   hypothesis of C04_lookup_exact_of_index_model and of C05_lookup_roundtrip) *)
+Definition index_rows_of (rrows : list rrow) : list LexSet.row :=
+  map (fun r => (utf8_bytes (r_surface r), e_left (r_entry r))) rrows.
+Definition lex_of_sections (impl_trie impl_table : bytes) : LexSet.lexicon :=
+  LexSet.mkLex (Trie.u32s_of_bytes impl_trie) impl_table.
 Definition check_c05_csv
   (version time : N) (descr impl_header : bytes) (impl_pos : bytes)
   (nl nr : N) (lines : list (N * N * Z)) (impl_conn : bytes) (conn_reads : list (N * N * Z))
   (offset : N) (user : bool) (sys_rows rows : list (list text)) (impl_words : bytes)
-  (dict_id nsys pos_offset : N) (dfs : list text) (rbs : list readback) : bool :=
+  (dict_id nsys pos_offset : N) (dfs : list text) (rbs : list readback)
+  (idx : option (bytes * bytes * nat)) : bool :=          (* trie section, word-id table section, longest key + 1 *)
   match parse_stack user sys_rows rows with
   | ROk (sys_pos, new_pos, sys_es, rrows) =>
       (if user then N.of_nat (List.length sys_pos) =? nsys else true)
+      && (match idx with
+          | Some (impl_trie, impl_table, fuel) =>
+              IndexBuild.index_cert (lex_of_sections impl_trie impl_table) (index_rows_of rrows) fuel
+          | None => true
+          end)
       && check_c05_rows version time descr impl_header new_pos impl_pos nl nr lines impl_conn conn_reads
                         offset user rrows sys_es impl_words dict_id nsys pos_offset dfs rbs
   | RErr _ => false
